@@ -43,7 +43,8 @@ MANIFEST_ENTRY = {
     "text": "For every integer operand of every instruction class (14 ISAs) values just inside and outside the "
             "representable range are encoded: out-of-range values must be rejected, accepted values must read back "
             "exactly (reference decoder on 9 ISAs, token field getter modulo 2^n elsewhere); label operands are "
-            "relocated with boundary distances and must decode to the symbol value or be rejected.",
+            "relocated with boundary distances and must decode to the symbol value or be rejected; the range helpers "
+            "behind the relocations (wrap_negative, wrap_signed, inrange) are swept directly for 25 widths.",
     "note": "Aliasing half-ranges, hand-written masking encoders, unaligned scaled operands and the dual range of "
             "wrap_negative are open findings: those values are not generated, plain truncation beyond 2^n is.",
     "technique": "runtime monitoring: boundary-value sweep with a reference-decoder oracle for field ranges",
@@ -65,13 +66,15 @@ def EXHAUSTIVE(tier):
 def plan(tier, seed, avoid):
     specs = [{"part": "operands", "arch": a, "slice": s, "of": k} for a, k in SLICES.items() for s in range(k)]
     specs += [{"part": "reloc", "arch": a} for a in RELOC_ISAS]
+    specs += [{"part": "helpers"}]
     return specs
 
 
 def floors(tier):
     return {"evaluations": 8000, "observed.isas": 14, "observed.slots_strong": 120, "observed.slots_weak": 150,
             "observed.rejected_out_of_range": 1500, "observed.accepted_in_range_exact": 2500,
-            "observed.reloc.applied_exact": 150, "observed.reloc.rejected": 30}
+            "observed.reloc.applied_exact": 150, "observed.reloc.rejected": 30,
+            "observed.helpers.wrap_negative_rejected": 3000, "observed.helpers.wrap_negative_exact": 1500}
 
 
 # ---------------------------------------------------------------------------
@@ -169,6 +172,8 @@ def skip_slot(isa, slot, expectation, avoid, fact, value=None):
 def run_shard(spec):
     if spec.get("part") == "reloc":
         return run_reloc(spec)
+    if spec.get("part") == "helpers":
+        return run_helpers(spec)
     return run_operands(spec)
 
 
@@ -377,6 +382,98 @@ def weak_observe(isa, slot, assignment, field):
 
 # ---------------------------------------------------------------------------
 # relocations
+
+
+def run_helpers(spec):
+    """The range helpers every relocation's calc/apply leans on (anchor: bitfun.wrap_negative, inrange), driven
+    directly: a value that fits no n-bit field (below -2^(n-1) or above 2^n - 1) must raise; a value inside the
+    signed range must come back as its two's-complement pattern; wrap_signed/inrange are exact for the signed
+    range.  The upper half [2^(n-1), 2^n) of wrap_negative is the open finding wrap-negative-dual-range: counted,
+    judged only when that finding is not open."""
+    from ppci.utils import bitfun as bf
+
+    avoid = set(spec["avoid"])
+    r = rng(spec["seed"], PROPERTY, "helpers")
+    tier = spec["tier"]
+    obs = {"wrap_negative_rejected": 0, "wrap_negative_exact": 0, "wrap_negative_upper_half_not_judged": 0,
+           "wrap_signed_rejected": 0, "wrap_signed_exact": 0, "inrange_agrees": 0, "widths": 0}
+    violations, samples = [], []
+    evals = nontrivial = 0
+
+    def viol(text, case):
+        if len(violations) < 8:
+            violations.append({"summary": text, "case": case})
+
+    def call(fn, v, n):
+        try:
+            return True, fn(v, n)
+        except (ValueError, AssertionError):
+            return False, None
+
+    for n in list(range(1, 19)) + [20, 21, 24, 26, 32, 33, 64]:
+        obs["widths"] += 1
+        lo, hi, top = -(1 << (n - 1)), (1 << (n - 1)) - 1, (1 << n) - 1
+        if n <= 10:
+            vals = set(range(-3 * (1 << n) - 2, 3 * (1 << n) + 3))
+        else:
+            vals = set()
+            for e in (lo, hi, top, -top, -top - 1, 0, 2 * top, -2 * top, 1 << 70, -(1 << 70)):
+                vals.update(range(e - 3, e + 4))
+            for _ in range(60 if tier == "quick" else 1500):
+                vals.add(r.randrange(-top - 1, lo))          # the band a bit_length test would let through
+                vals.add(r.randrange(lo, hi + 1))
+                vals.add(r.randrange(hi + 1, top + 1))
+                vals.add(r.randrange(top + 1, 4 * top + 8))
+                vals.add(-r.randrange(top + 2, 4 * top + 8))
+        for v in sorted(vals):
+            evals += 1
+            nontrivial += 1 if v else 0
+            fits_signed = lo <= v <= hi
+            # wrap_negative
+            ok, res = call(bf.wrap_negative, v, n)
+            if fits_signed:
+                if not ok or res != v % (1 << n):
+                    viol("wrap_negative(%d, %d) %s; the signed %d-bit pattern is %#x" % (
+                        v, n, "raises" if not ok else "= %#x" % res, n, v % (1 << n)), {"helper": "wrap_negative", "v": v, "bits": n})
+                else:
+                    obs["wrap_negative_exact"] += 1
+            elif hi < v <= top:
+                if "wrap-negative-dual-range" in avoid:
+                    obs["wrap_negative_upper_half_not_judged"] += 1
+                elif ok:
+                    viol("wrap_negative(%d, %d) = %#x: accepted although a signed %d-bit field holds [%d, %d]" % (
+                        v, n, res, n, lo, hi), {"helper": "wrap_negative", "v": v, "bits": n})
+            else:
+                if ok:
+                    viol("wrap_negative(%d, %d) = %#x: the value fits no %d-bit field (signed [%d, %d], unsigned "
+                         "[0, %d]) and is silently reduced" % (v, n, res, n, lo, hi, top),
+                         {"helper": "wrap_negative", "v": v, "bits": n})
+                else:
+                    obs["wrap_negative_rejected"] += 1
+            # wrap_signed / inrange (exact signed range)
+            if hasattr(bf, "wrap_signed"):
+                ok, res = call(bf.wrap_signed, v, n)
+                if fits_signed and (not ok or res != v % (1 << n)):
+                    viol("wrap_signed(%d, %d) %s; the signed pattern is %#x" % (
+                        v, n, "raises" if not ok else "= %#x" % res, v % (1 << n)), {"helper": "wrap_signed", "v": v, "bits": n})
+                elif not fits_signed and ok:
+                    viol("wrap_signed(%d, %d) = %#x: accepted outside [%d, %d]" % (v, n, res, lo, hi),
+                         {"helper": "wrap_signed", "v": v, "bits": n})
+                else:
+                    obs["wrap_signed_exact" if fits_signed else "wrap_signed_rejected"] += 1
+            try:
+                ir = bf.inrange(v, n)
+            except Exception as e:  # noqa
+                ir = "raised %s" % type(e).__name__
+            if ir is not fits_signed and ir != fits_signed:
+                viol("inrange(%d, %d) = %r, the signed %d-bit range is [%d, %d]" % (v, n, ir, n, lo, hi),
+                     {"helper": "inrange", "v": v, "bits": n})
+            else:
+                obs["inrange_agrees"] += 1
+        if len(samples) < 2:
+            samples.append({"helper": "wrap_negative", "bits": n, "values": len(vals), "rejected_below": lo - 1})
+    return {"evaluations": evals, "nontrivial_count": nontrivial, "observed": {"helpers": obs}, "samples": samples,
+            "violations": violations}
 
 
 def run_reloc(spec):
